@@ -39,6 +39,12 @@ type Solver struct {
 	kind      string
 	timeout   int
 	scopeDecl map[int]bool
+	lines     chan string
+	waitMs    int // watchdog for the next sync (0: none)
+	// IntW > 0: Int-sorted terms are sent as signed bit-vectors of this width ("small ints":
+	// every Int term must have known bounds that fit; otherwise Unsafe is set)
+	IntW   int
+	Unsafe string
 }
 
 const strDatatype = `(declare-datatypes ((Str 0)) (((slit (slit_id Int)) (sip (sip_v Int)) (shp (shp_h Str) (shp_p Int)) (sfmt (sfmt_id Int) (sfmt_a Str) (sfmt_b Str) (sfmt_c Str)) (sint (sint_v Int)))))`
@@ -69,6 +75,19 @@ func NewSolver(tb *TB, kind string, logPath string) (*Solver, error) {
 		return nil, err
 	}
 	s := &Solver{Name: kind, kind: kind, tb: tb, cmd: cmd, in: in, out: bufio.NewReaderSize(outp, 1<<20), defined: map[int]bool{}}
+	s.lines = make(chan string, 4096)
+	go func() {
+		for {
+			l, err := s.out.ReadString('\n')
+			if l != "" {
+				s.lines <- l
+			}
+			if err != nil {
+				close(s.lines)
+				return
+			}
+		}
+	}()
 	if logPath != "" {
 		f, err := os.Create(logPath)
 		if err == nil {
@@ -116,8 +135,25 @@ func (s *Solver) send(line string) {
 func (s *Solver) sync() []string {
 	s.send(`(echo "<<end>>")`)
 	var lines []string
+	var watchdog <-chan time.Time
+	if s.waitMs > 0 {
+		watchdog = time.After(time.Duration(s.waitMs) * time.Millisecond)
+	}
 	for {
-		l, err := s.out.ReadString('\n')
+		var l string
+		var ok bool
+		select {
+		case l, ok = <-s.lines:
+		case <-watchdog:
+			s.Errors = append(s.Errors, "solver did not answer within its time limit (killed)")
+			s.Kill()
+			return lines
+		}
+		if !ok {
+			s.Errors = append(s.Errors, "solver died")
+			s.dead = true
+			break
+		}
 		l = strings.TrimSpace(l)
 		if strings.Trim(l, `"`) == "<<end>>" {
 			break
@@ -128,30 +164,140 @@ func (s *Solver) sync() []string {
 				s.Errors = append(s.Errors, l)
 			}
 		}
-		if err != nil {
-			s.Errors = append(s.Errors, "solver died: "+err.Error())
-			s.dead = true
-			break
-		}
 	}
 	return lines
+}
+
+func (s *Solver) sortStr(so Sort) string {
+	if s.IntW > 0 {
+		switch so.K {
+		case KInt:
+			return fmt.Sprintf("(_ BitVec %d)", s.IntW)
+		case KArr:
+			if so.W == 0 {
+				return fmt.Sprintf("(Array (_ BitVec %d) (_ BitVec %d))", s.IntW, s.IntW)
+			}
+		}
+	}
+	return so.String()
+}
+
+func (s *Solver) intConst(v *big.Int) string {
+	m := new(big.Int).Mod(v, pow2(s.IntW))
+	return fmt.Sprintf("(_ bv%s %d)", m.String(), s.IntW)
+}
+
+// checkFits records when an Int term has no bounds that fit the lowered width.
+func (s *Solver) checkFits(t *Term) {
+	if s.IntW == 0 || t.Sort.K != KInt || s.Unsafe != "" {
+		return
+	}
+	lim := pow2(s.IntW - 2)
+	if t.lo == nil || t.hi == nil || t.lo.CmpAbs(lim) >= 0 || t.hi.CmpAbs(lim) >= 0 {
+		s.Unsafe = fmt.Sprintf("Int term without bounds fitting %d bits: %s", s.IntW, s.tb.Show(t))
+	}
+}
+
+// head renders a term head, lowering integer operators to bit-vector ones in small-int mode.
+func (s *Solver) head(t *Term, names []string) string {
+	if s.IntW == 0 {
+		return s.tb.head(t, names)
+	}
+	intArgs := len(t.Args) > 0 && t.Args[len(t.Args)-1].Sort.K == KInt
+	if t.Sort.K == KInt {
+		s.checkFits(t)
+	}
+	join := func(op string) string { return "(" + op + " " + strings.Join(names, " ") + ")" }
+	switch t.Op {
+	case OpConst:
+		if t.Sort.K == KInt {
+			return s.intConst(t.Val)
+		}
+	case OpAdd:
+		if t.Sort.K == KInt {
+			return join("bvadd")
+		}
+	case OpSub:
+		if t.Sort.K == KInt {
+			return join("bvsub")
+		}
+	case OpMul:
+		if t.Sort.K == KInt {
+			return join("bvmul")
+		}
+	case OpNeg:
+		if t.Sort.K == KInt {
+			return join("bvneg")
+		}
+	case OpDiv, OpMod:
+		if t.Sort.K == KInt {
+			for _, a := range t.Args {
+				if a.lo == nil || a.lo.Sign() < 0 {
+					s.Unsafe = "div/mod of a possibly negative Int in small-int mode"
+				}
+			}
+			if t.Op == OpDiv {
+				return join("bvudiv")
+			}
+			return join("bvurem")
+		}
+	case OpLt:
+		if intArgs {
+			return join("bvslt")
+		}
+	case OpLe:
+		if intArgs {
+			return join("bvsle")
+		}
+	case OpBV2Nat:
+		w := t.Args[0].Sort.W
+		if w < s.IntW {
+			return fmt.Sprintf("((_ zero_extend %d) %s)", s.IntW-w, names[0])
+		}
+		if w == s.IntW {
+			return names[0]
+		}
+		return fmt.Sprintf("((_ extract %d 0) %s)", s.IntW-1, names[0])
+	case OpInt2BV:
+		w := t.Sort.W
+		if w < s.IntW {
+			return fmt.Sprintf("((_ extract %d 0) %s)", w-1, names[0])
+		}
+		if w == s.IntW {
+			return names[0]
+		}
+		return fmt.Sprintf("((_ sign_extend %d) %s)", w-s.IntW, names[0])
+	case OpToReal, OpToInt:
+		s.Unsafe = "real arithmetic in small-int mode"
+	}
+	return s.tb.head(t, names)
 }
 
 // ref makes sure t is defined in the solver and returns its name.
 func (s *Solver) ref(t *Term) string {
 	if t.Op == OpConst {
-		return s.tb.head(t, nil)
+		return s.head(t, nil)
 	}
 	if t.Op == OpVar {
 		if !s.defined[t.ID] {
 			s.defined[t.ID] = true
-			s.send(fmt.Sprintf("(declare-const %s %s)", quoteSym(t.Name), t.Sort))
+			s.send(fmt.Sprintf("(declare-const %s %s)", quoteSym(t.Name), s.sortStr(t.Sort)))
 			if t.Sort.K == KInt {
-				if t.lo != nil {
-					s.send(fmt.Sprintf("(assert (>= %s %s))", quoteSym(t.Name), smtIntConst(t.lo)))
-				}
-				if t.hi != nil {
-					s.send(fmt.Sprintf("(assert (<= %s %s))", quoteSym(t.Name), smtIntConst(t.hi)))
+				s.checkFits(t)
+				if s.IntW > 0 {
+					if t.lo != nil {
+						s.send(fmt.Sprintf("(assert (bvsle %s %s))", s.intConst(t.lo), quoteSym(t.Name)))
+					}
+					if t.hi != nil {
+						s.send(fmt.Sprintf("(assert (bvsle %s %s))", quoteSym(t.Name), s.intConst(t.hi)))
+					}
+				} else {
+					if t.lo != nil {
+						s.send(fmt.Sprintf("(assert (>= %s %s))", quoteSym(t.Name), smtIntConst(t.lo)))
+					}
+					if t.hi != nil {
+						s.send(fmt.Sprintf("(assert (<= %s %s))", quoteSym(t.Name), smtIntConst(t.hi)))
+					}
 				}
 			}
 		}
@@ -192,18 +338,22 @@ func (s *Solver) ref(t *Term) string {
 		for i, a := range x.Args {
 			switch a.Op {
 			case OpConst:
-				names[i] = s.tb.head(a, nil)
+				names[i] = s.head(a, nil)
 			case OpVar:
 				names[i] = quoteSym(a.Name)
 			default:
 				names[i] = fmt.Sprintf("t%d", a.ID)
 			}
 		}
-		s.send(fmt.Sprintf("(define-fun t%d () %s %s)", x.ID, x.Sort, s.tb.head(x, names)))
+		s.send(fmt.Sprintf("(define-fun t%d () %s %s)", x.ID, s.sortStr(x.Sort), s.head(x, names)))
 		s.defined[x.ID] = true
 		if x.Op == OpSelect && x.Sort.K == KInt {
 			// bytes: the interval reasoning of the term layer relies on this
-			s.send(fmt.Sprintf("(assert (and (<= 0 t%d) (<= t%d 255)))", x.ID, x.ID))
+			if s.IntW > 0 {
+				s.send(fmt.Sprintf("(assert (bvule t%d %s))", x.ID, s.intConst(big.NewInt(255))))
+			} else {
+				s.send(fmt.Sprintf("(assert (and (<= 0 t%d) (<= t%d 255)))", x.ID, x.ID))
+			}
 		}
 	}
 	return fmt.Sprintf("t%d", t.ID)
@@ -239,8 +389,15 @@ func (s *Solver) Check(extra []*Term, timeoutMs int) Result {
 	}
 	nerr := len(s.Errors)
 	t0 := time.Now()
-	s.send("(check-sat)")
+	s.waitMs = timeoutMs + 5000
+	if s.IntW > 0 && s.kind != "cvc5" {
+		// incremental mode skips bit-blasting preprocessing; apply the tactic explicitly
+		s.send(fmt.Sprintf("(check-sat-using (try-for (then simplify propagate-values solve-eqs bit-blast sat) %d))", timeoutMs))
+	} else {
+		s.send("(check-sat)")
+	}
 	lines := s.sync()
+	s.waitMs = 0
 	s.Time += time.Since(t0)
 	s.Queries++
 	res := Unknown
@@ -253,6 +410,10 @@ func (s *Solver) Check(extra []*Term, timeoutMs int) Result {
 		}
 	}
 	if len(s.Errors) > nerr {
+		res = Unknown
+	}
+	if s.Unsafe != "" {
+		s.Errors = append(s.Errors, "small-int lowering unsafe: "+s.Unsafe)
 		res = Unknown
 	}
 	return res
@@ -307,6 +468,9 @@ func (s *Solver) Values(ts []*Term) (map[int]*big.Int, map[int]*big.Rat) {
 				continue
 			}
 			if b, ok := sexprInt(v); ok {
+				if s.IntW > 0 && t.Sort.K == KInt {
+					b = toSigned(b, s.IntW)
+				}
 				out[t.ID] = b
 			}
 		}
@@ -319,7 +483,7 @@ func (s *Solver) Values(ts []*Term) (map[int]*big.Int, map[int]*big.Rat) {
 func (s *Solver) refInScope(t *Term) string {
 	switch {
 	case t.Op == OpConst:
-		return s.tb.head(t, nil)
+		return s.head(t, nil)
 	case t.Op == OpVar:
 		if !s.defined[t.ID] && !s.scopeDecl[t.ID] {
 			// a declaration inside a scope vanishes on pop: remember it for this scope only
@@ -327,7 +491,7 @@ func (s *Solver) refInScope(t *Term) string {
 				s.scopeDecl = map[int]bool{}
 			}
 			s.scopeDecl[t.ID] = true
-			s.send(fmt.Sprintf("(declare-const %s %s)", quoteSym(t.Name), t.Sort))
+			s.send(fmt.Sprintf("(declare-const %s %s)", quoteSym(t.Name), s.sortStr(t.Sort)))
 		}
 		return quoteSym(t.Name)
 	case s.defined[t.ID]:
@@ -337,7 +501,7 @@ func (s *Solver) refInScope(t *Term) string {
 	for i, a := range t.Args {
 		names[i] = s.refInScope(a)
 	}
-	return s.tb.head(t, names)
+	return s.head(t, names)
 }
 
 // ---------------------------------------------------------------- s-expressions
